@@ -282,7 +282,7 @@ func init() {
 		return &fw.Prop{
 			ID:    "C01",
 			Level: "exploration",
-			Rule:  "cases = (accepted instance, leaf position of proof/public inputs/circuit digest found by reflection, perturbation in {+1,-1,random,swap with next leaf of the same list,zero}) executed on the real circuit code: leaves outside the query rounds through VerifierCircuit.Define (whole circuit), leaves inside query round j through the repository's verifyQueryRound for round j alone with the transcript recorded from the unperturbed run (xcheck cases run both and require equal verdicts, at every round index); plus single-constant circuit-description changes (k_is, gate id parameters, gate order, selector indices / group bounds) judged only when the independent reference rejects; plus proof/verifier-data cross pairings. Non-trivial = the perturbed assignment really differs from the accepted one; distinct by (instance, leaf path, perturbation).",
+			Rule:  "cases = (accepted instance, leaf position of proof/public inputs/circuit digest found by reflection, perturbation in {+1,-1,random,swap with next leaf of the same list,zero}) executed on the real circuit code: leaves outside the query rounds through VerifierCircuit.Define (whole circuit), leaves inside query round j through the repository's verifyQueryRound for round j alone with the transcript recorded from the unperturbed run (xcheck cases run both and require equal verdicts, at every round index); plus single-constant circuit-description changes (k_is, gate id parameters, gate order, selector indices / group bounds) judged only when the independent reference rejects; plus proof/verifier-data cross pairings. Non-trivial = the perturbed assignment really differs from the accepted one; distinct by (instance, leaf path, perturbation). Also: 'structured' perturbations (chunk / limb / modulus sized steps), the same tampering through CircuitFixed, the whole 28-round verifier compiled with gnark's R1CS (thorough: SCS) builder with honest and tampered witnesses solved by the real solver, description changes decided by the reference (coset shifts, gate parameters, selector indices / group bounds / swapped groups, each copy of the FRI configuration changed alone), a tampered proof after a valid one on one chip, and forged query-index decompositions.",
 			Assumptions: []string{
 				"acceptance is evaluated by the monitoring engine (Native face; sampled under Plain and Commit faces) running the repository's Define code; engine/gnark agreement is sampled in C02",
 				"query-round isolation is valid because round proofs are not absorbed into the transcript; monitored by the xcheck cases",
